@@ -75,12 +75,15 @@ type JFile struct {
 	// Nested: raw member blocks (nested interface / static class) rendered after the methods; outside
 	// the "conventional" subset, used by the differential checks only
 	Nested []string `json:"nested,omitempty"`
+	// NestedFirst: member blocks rendered right after the class header, before fields and methods
+	NestedFirst []string `json:"nested_first,omitempty"`
 	// HeaderBytes > 0: a licence comment of at least that many bytes precedes the package line (sizes
 	// around the usual buffer sizes: the first mention of anything interesting lies beyond them)
 	HeaderBytes int `json:"header_bytes,omitempty"`
 	// LegacyComment: a comment holding bytes that are not valid UTF-8 (a Latin-1 / GBK source); the
 	// scenario carries a marker, the materialised file the bytes
 	LegacyComment bool   `json:"legacy_comment,omitempty"`
+	DupImport     bool   `json:"dup_import,omitempty"` // the first import line is written twice
 	Text          string `json:"text"`
 	// ground truth for the Spring role
 	Apis []ApiTruth `json:"apis,omitempty"`
@@ -125,6 +128,9 @@ func (f *JFile) Render() {
 		}
 		add(s + ";")
 		im.Line = len(b)
+		if f.DupImport && i == 0 {
+			add(s + ";") // the same import line once more (a merge leftover): legal Java
+		}
 	}
 	if len(f.Imports) > 0 {
 		add("")
@@ -144,6 +150,12 @@ func (f *JFile) Render() {
 		}
 	}
 	add(head + " {")
+	for _, blk := range f.NestedFirst {
+		for _, l := range strings.Split(blk, "\n") {
+			add("    " + l)
+		}
+		add("")
+	}
 	addField := func(fl JField) {
 		for _, a := range fl.Annotations {
 			add("    " + a)
@@ -251,11 +263,11 @@ type Options struct {
 var (
 	pkgPool      = []string{"a", "b", "x.y", "z", "ads.target.web", "tools.build", "javabook.ch1", "javax.ext"}
 	collidePkgs  = []string{"p", "pq", "qr", "r", "p.q", "pq.r"}
-	classPool    = []string{"Alpha", "Beta", "Gamma", "Delta", "Helper", "Repo", "Shape", "Other", "Svc", "Item", "Store", "Util", "OrderService", "UserService"}
+	classPool    = []string{"Alpha", "Beta", "Gamma", "Delta", "Helper", "Repo", "Shape", "Other", "Svc", "Item", "Store", "Util", "OrderService", "UserService", "Order", "PurchaseOrder"}
 	fieldNames   = []string{"repo", "svc", "helper", "item", "store", "shape"}
 	paramNames   = []string{"svc", "item", "repo", "id", "name", "other"}
 	localNames   = []string{"item", "tmp", "repo", "x", "helper", "res"}
-	methodNames  = []string{"go", "run", "find", "save", "load", "getName", "setName", "build", "check", "apply"}
+	methodNames  = []string{"go", "run", "find", "save", "load", "getName", "setName", "build", "check", "apply", "open", "record", "exports", "with"} // the last four: contextual keywords of newer Java, ordinary method names
 	externalTyps = []string{"java.util.List", "java.util.Map", "java.util.UUID", "java.util.Optional", "org.ext.Shape", "org.ext.Helper", "org.lib.Repo", "org.lib.Clock"}
 	primitives   = []string{"int", "String", "boolean", "long"}
 )
@@ -595,7 +607,7 @@ func (g *gctx) genFile(fi int) *JFile {
 				f.Annotations = append(f.Annotations, fmt.Sprintf("@RequestMapping(%q)", base))
 			case 2:
 				base = "/" + strings.ToLower(ci.name) + "s"
-				f.Annotations = append(f.Annotations, fmt.Sprintf("@RequestMapping(value = %q)", base))
+				f.Annotations = append(f.Annotations, fmt.Sprintf("@RequestMapping(%s = %q)", g.pick([]string{"value", "value", "path"}), base))
 			}
 			if len(f.Annotations) == 2 && t.Bool(1, 4) {
 				// Java does not order annotations: the mapping may be written before the controller annotation
@@ -609,6 +621,10 @@ func (g *gctx) genFile(fi int) *JFile {
 				} else {
 					f.Annotations = append(f.Annotations, extra)
 				}
+			}
+			if t.Bool(1, 10) {
+				// a nested record with an implements clause and a method, declared before the handlers
+				f.NestedFirst = append(f.NestedFirst, "record Pair(int a, int b) implements Comparable<Pair> {\n    public int compareTo(Pair o) {\n        return 0;\n    }\n}")
 			}
 		case k == 3: // plain class carrying mapping annotations but no controller annotation
 			f.Annotations = append(f.Annotations, "@Component")
@@ -625,6 +641,7 @@ func (g *gctx) genFile(fi int) *JFile {
 		f.Annotations = append(f.Annotations, g.pick([]string{"@Component", "@Service", "@Deprecated", "@SuppressWarnings(\"unchecked\")"}))
 	}
 	f.LegacyComment = t.Bool(1, 10)
+	f.DupImport = t.Bool(1, 8)
 	if t.Bool(1, 10) {
 		f.HeaderBytes = []int{600, 4100, 8200, 16400, 33000, 65600}[t.Pick(6)]
 	}
@@ -820,11 +837,20 @@ func (g *gctx) genFile(fi int) *JFile {
 				ann = fmt.Sprintf("@RequestMapping(method = RequestMethod.%s, value = %q)", verb, path)
 			}
 			if !strings.HasPrefix(ann, "@RequestMapping") && path != "" {
-				if t.Bool(1, 4) {
+				switch k := t.Pick(12); {
+				case k <= 2:
 					ann += fmt.Sprintf("(value = %q)", path) // the value= form of the verb-specific annotations
-				} else {
+				case k == 3:
+					ann += fmt.Sprintf("(path = %q)", path) // path is Spring's alias of value
+				case k == 4:
+					ann += fmt.Sprintf("({%q})", path) // a one-element array of paths
+				case k == 5:
+					ann += fmt.Sprintf("(value = {%q})", path)
+				default:
 					ann += fmt.Sprintf("(%q)", path)
 				}
+			} else if strings.HasPrefix(ann, "@RequestMapping") && path != "" && t.Bool(1, 5) {
+				ann = strings.Replace(ann, "value = ", "path = ", 1)
 			}
 			m.Annotations = append(m.Annotations, ann)
 			m.Modifiers = "public"
@@ -1215,7 +1241,12 @@ func (g *gctx) genBody(fi int, fields, locals map[string]string, need func(strin
 				out = append(out, fmt.Sprintf("%s.forEach(%s::%s);", name, typ, g.pick(methodNames)))
 			}
 		case k == 13 && g.o.Anonymous && depth == 0: // anonymous class with a method
-			out = append(out, fmt.Sprintf("Runnable %s = new Runnable() {", "task"+fmt.Sprintf("%d", t.Pick(3))))
+			if t.Bool(1, 3) {
+				// an anonymous class of a nested (dotted) type: new View.OnClickListener() { .. }
+				out = append(out, fmt.Sprintf("Object %s = new View.OnClickListener() {", "listener"+fmt.Sprintf("%d", t.Pick(3))))
+			} else {
+				out = append(out, fmt.Sprintf("Runnable %s = new Runnable() {", "task"+fmt.Sprintf("%d", t.Pick(3))))
+			}
 			out = append(out, "    @Override")
 			out = append(out, "    public void "+g.pick([]string{"run", "go", "apply"})+"() {")
 			out = append(out, "        "+g.callExpr(fi, fields, locals, need)+";")
